@@ -1728,7 +1728,8 @@ def static_sequence(interp, v, state):
 
 
 def unpack_iterable(interp, v, n, state, node):
-    seq = static_sequence(interp, v, state)
+    ntv = _namedtuple_values(interp, v, state)
+    seq = ntv if ntv is not None else static_sequence(interp, v, state)
     if seq is not None:
         if len(seq) != n:
             interp.raise_pending(state, E('builtins.ValueError'), node,
@@ -1765,8 +1766,28 @@ def unpack_iterable(interp, v, n, state, node):
 # subscripts
 
 
+def _namedtuple_values(interp, ref, state):
+    """Field values, in order, of an instance of a typing.NamedTuple
+    class; None for anything else."""
+    if not isinstance(ref, Ref):
+        return None
+    o = interp.obj(state, ref)
+    if o.kind != 'inst':
+        return None
+    nt = interp._namedtuple_fields(o.cls)
+    if nt is None:
+        return None
+    ABSENT = _i().ABSENT
+    vals = [o.attrs.get(n, ABSENT) for n in nt[0]]
+    return None if any(v is ABSENT for v in vals) else vals
+
+
 def get_item(interp, base, k, state, node):
     ABSENT = _i().ABSENT
+    ntv = _namedtuple_values(interp, base, state)
+    if ntv is not None and isinstance(k, int) and not isinstance(k, bool) \
+            and -len(ntv) <= k < len(ntv):
+        return ntv[k]
     if isinstance(base, Ref):
         o = interp.obj(state, base)
         if o.kind == 'dict':
